@@ -67,16 +67,18 @@ type recorder struct {
 	// connection numbering: gid = global identity of a connection in this case (harness bookkeeping,
 	// oracles); mcid = its number in the modelled loop (loop 0), mirroring Model/Loop.v's accept order,
 	// -1 for connections served by the other loops of a multi-loop engine (oracle-only)
-	nextCid     int // next model cid
-	nextGid     int
-	userFds     []int       // descriptors handed to the user by Conn.Dup: the framework must never touch them
-	injectedAcc []string    // faults injected into the main reactor's accept4 calls
-	fdCid       map[int]int // fd -> gid
-	gidM        map[int]int // gid -> mcid
-	nloops      int
-	accCount    int            // accepts seen on the acceptor thread (round-robin target = accCount % nloops)
-	otherG      map[int64]bool // goroutines of loops 1..n-1
-	idleG       map[int64]bool // loop goroutine -> inside a blocking epoll_wait
+	nextCid       int // next model cid
+	nextGid       int
+	batchFds      map[int]bool // descriptors reported by the loop's current epoll_wait batch
+	closedInBatch map[int]bool // ... and closed by the framework since that batch was fetched
+	userFds       []int        // descriptors handed to the user by Conn.Dup: the framework must never touch them
+	injectedAcc   []string     // faults injected into the main reactor's accept4 calls
+	fdCid         map[int]int  // fd -> gid
+	gidM          map[int]int  // gid -> mcid
+	nloops        int
+	accCount      int            // accepts seen on the acceptor thread (round-robin target = accCount % nloops)
+	otherG        map[int64]bool // goroutines of loops 1..n-1
+	idleG         map[int64]bool // loop goroutine -> inside a blocking epoll_wait
 
 	// descriptor ledger (C07): descriptors created by the framework and not yet closed
 	owned    map[int]string
@@ -274,6 +276,11 @@ func (r *recorder) checkOwned(c *vunix.Call, fd int, g int64) {
 		}
 		if who == "loop" && r.curCall != "" && (name == "sendto" || name == "send") {
 			name += "@" + r.curCall
+		}
+		if who == "loop" && name == "epoll_ctl-del" && r.batchFds[fd] && r.closedInBatch[fd] {
+			// the reactor's stale-event branch: the descriptor had an event in the batch being
+			// processed and was closed (by another connection's callback) earlier in that batch
+			name += "@stale-event"
 		}
 		r.failLocked("fd-not-owned", fmt.Sprintf("%s:%s", who, name),
 			fmt.Sprintf("%s on descriptor %d which the framework does not own at this point", c.Name, fd))
@@ -492,6 +499,9 @@ func (r *recorder) After(c *vunix.Call) {
 		if !c.Skip {
 			delete(r.owned, c.Fd)
 		}
+		if r.closedInBatch != nil {
+			r.closedInBatch[c.Fd] = true
+		}
 	case "epoll_ctl":
 		if pollOpt && c.Err == nil && c.Arg != unix.EPOLL_CTL_DEL {
 			r.ptr2fd[c.Data] = c.Arg2
@@ -556,6 +566,7 @@ func (r *recorder) After(c *vunix.Call) {
 		if c.Ret > 0 {
 			r.wakeSeq++
 			args := []string{}
+			r.batchFds, r.closedInBatch = map[int]bool{}, map[int]bool{}
 			for i := 0; i < c.Ret; i++ {
 				fd := int(c.EvList[i].Fd)
 				if pollOpt { // the event carries the attachment pointer, not the descriptor
@@ -566,6 +577,7 @@ func (r *recorder) After(c *vunix.Call) {
 						fd = -2
 					}
 				}
+				r.batchFds[fd] = true
 				args = append(args, tr.I(fd), tr.I(int(c.EvList[i].Events)))
 				// C07 "polls only descriptors it owns": an event for a number the framework has already
 				// closed means its registration outlived the descriptor
